@@ -354,9 +354,7 @@ def main(argv=None):
     if bad:
         rep.add({"mode": "pure", "seed": a.seed + 5}, {"clause": "ls-date-roundtrip", "subject": "function-level", "detail": f"parse_ls_date(build_list_mtime(mtime, now), now) wrong for (tz, mtime, now, text, got, expected) = {bad[:3]}"})
     with common.Pool() as pool:
-        cases = [gen_case(a.seed * 1_000_000 + i) for i in range(n)]
-        for c in cases[:2]:
-            c["want_sample"] = True
+        cases = common.with_samples((gen_case(a.seed * 1_000_000 + i) for i in range(n)), 2)
         for case, res in pool.map(run_case, cases, deadline=deadline, chunksize=8):
             ev.add_run(res)
             for v in res["violations"]:
